@@ -122,4 +122,96 @@ def wfB (m : Macro) : Bool :=
     | _ => true)
 
 
+/-! ## the class with `##` (experimental until proved: `tameRunP`) -/
+
+def dropWs (l : List PTok) : List PTok := l.dropWhile (·.tok.isWhitespace)
+
+/-- `rest` continues a paste: white space, `##`, white space, the right operand, what follows it -/
+def splitPaste (rest : List PTok) : Option (PTok × List PTok) :=
+  match dropWs rest with
+  | ⟨.concat, _⟩ :: r =>
+    match dropWs r with
+    | t2 :: rest2 => if t2.tok = .concat then none else some (t2, rest2)
+    | [] => none
+  | _ => none
+
+/-- first / last token of a replacement list that is not white space, seen from a position -/
+def prevTok (rev : List PTok) : Option Tok := firstTok rev
+
+/-- the parameters that occur next to `##` in a replacement list -/
+def pasteParams : List PTok → List PTok → List Nat
+  | _, [] => []
+  | before, t :: rest =>
+    let more := pasteParams (t :: before) rest
+    match t.tok with
+    | .arg i => if firstTok before == some .concat || firstTok rest == some .concat then i :: more else more
+    | _ => more
+
+def noConcatB (l : List PTok) : Bool := l.all (fun t => t.tok != .concat)
+
+def noNamesB (env : List Entry) (l : List PTok) : Bool :=
+  l.all (fun t => match t.tok with
+    | .id n => env.all (fun e => e.m.name != n || e.disabled)
+    | _ => true)
+
+def nonEmptyB (l : List PTok) : Bool := l.any (fun t => !t.tok.isWhitespace)
+
+def tameRunP : Nat → List Entry → List PTok → Option (List PTok)
+  | 0, _, _ => none
+  | _ + 1, _, [] => some []
+  | f + 1, env, t :: rest =>
+    match (if t.tok.isWhitespace then none else splitPaste rest) with
+    | some (t2, rest2) =>
+      -- `t ## t2`: neither operand is expanded, the merged token is kept
+      if keptB env t rest then
+        match pasteTokens t t2 with
+        | .ok m => if keptB env m rest2 then tameRunP f env (m :: rest2) else none
+        | .error _ => none
+      else none
+    | none =>
+      let keep : Option (List PTok) :=
+        if keptB env t rest then
+          match tameRunP f env rest with
+          | some out => some (t :: out)
+          | none => none
+        else none
+      match t.tok with
+      | .id n =>
+        match selectIdx env n with
+        | none => keep
+        | some (mi, e) =>
+          match readArgs e.m rest with
+          | .error _ => keep
+          | .ok (rest', args) =>
+            if args.all noConcatB &&
+                (pasteParams [] e.m.body).all (fun i => noNamesB env (args.getD i []) && nonEmptyB (args.getD i [])) then
+              match mapO (tameRunP f env) args with
+              | none => none
+              | some args' =>
+                if args'.all (onlyDisabledB env) then
+                  match substitute e.m.body args' with
+                  | .error _ => none
+                  | .ok body' =>
+                    match tameRunP f (disable env mi) body' with
+                    | none => none
+                    | some R =>
+                      if noFireB env mi R rest' then
+                        match tameRunP f env rest' with
+                        | some out => some (R ++ out)
+                        | none => none
+                      else none
+                else none
+            else none
+      | _ => keep
+
+/-- `WFMacro` without "no `##`" -/
+def wfPB (m : Macro) : Bool :=
+  m.body.all (fun t =>
+    match t.tok with
+    | .hashhash => false
+    | .id s => s.toList.head? != some '$'
+    | .arg i => decide (i < m.numParams) && m.isFunction
+    | _ => true)
+
+
 end RsslVerif.Model.MacroTame
